@@ -601,10 +601,22 @@ func (c *Client) negotiateVersion(ctx context.Context) error {
 		return fmt.Errorf("Unexpected response payload type %T", bi.ResponsePayload)
 	}
 	serverVersions := discovered.ProtocolVersion
-	if len(serverVersions) == 0 {
+	// Adopt the highest version advertised by the server that is also in the
+	// client's configured set, whatever the order of the server's list.
+	var best *kmip.ProtocolVersion
+	for i := range serverVersions {
+		v := serverVersions[i]
+		if !slices.Contains(c.supportedVersions, v) {
+			continue
+		}
+		if best == nil || ttlv.CompareVersions(v, *best) > 0 {
+			best = &v
+		}
+	}
+	if best == nil {
 		return errors.New("Protocol version negotiation failed. No common version found")
 	}
-	c.version = &serverVersions[0]
+	c.version = best
 	return nil
 }
 
